@@ -29,7 +29,10 @@ CHECKS = {
         "polygon as a vertex sequence on small lattices (built one vertex per step), checks that three different rays agree and "
         "that vertex insertion/translation change nothing, and emits the inside bitmap of every window point; all are replayed "
         "into Polygon/Rect/Path::contains (with translated and vertex-inserted variants). Random larger rectilinear, 45-degree "
-        "and star polygons recorded from the code are validated answer by answer by TLC.",
+        "and star polygons recorded from the code are validated answer by answer by TLC. BBox.tla defines bounding boxes by the set "
+        "of lattice points they contain; TLC checks the min/max formulas and the lattice laws against that meaning on every pair "
+        "of boxes of a 4 x 4 grid (incl. empty and degenerate ones) and each pair is replayed into raw::BoundBox (the fast "
+        "rejection of Polygon::contains).",
    note="Trusted: TLC, the harness's polygon constructors, the random generators (their output is re-checked for simplicity by "
         "TLC). Paths: three-valued oracle, caps/corners unconstrained.",
    tech="TLA+ exact-geometry spec + TLC exhaustive small-lattice enumeration; S->I replay and I->S trace validation"),
